@@ -182,6 +182,21 @@ def _worker_soup(args: T.Tuple[int, int, int, bool]) -> T.Dict[str, T.Any]:
     return {'alphabet': alpha.items, 'cases': cases}
 
 
+def _worker_gen(args: T.Tuple[int, int, int, bool]) -> T.Dict[str, T.Any]:
+    """Well-formed programs from the grammar-based generators, decorated with newlines (and hence comments) at arbitrary
+    places inside brackets: mostly accepted, so losslessness and extents are exercised on deep trees."""
+    lo, hi, sd, want_ast = args
+    mods = ld.load_modules()
+    alpha = ld.Alphabet()
+    cases = []
+    for j in range(lo, hi):
+        rnd = random.Random(sd * 86028121 + j)
+        toks = lang_gen.build_program(rnd) if j % 2 else lang_gen.program(rnd, err_rate=0.0)
+        toks = lang_gen.decorate_nested(toks, rnd, rate=rnd.choice([0.1, 0.3]), anywhere=rnd.choice([0.05, 0.2, 0.5]))
+        cases.append(_case_from_tokens(f'gen:{j}', toks, [alpha.add(t) for t in toks], rnd, mods, want_ast))
+    return {'alphabet': alpha.items, 'cases': cases}
+
+
 def _worker_chars(args: T.Tuple[int, int, int]) -> T.List[str]:
     lo, hi, sd = args
     mp, pr, ml = ld.load_modules()
@@ -291,6 +306,12 @@ def run_corpus_and_soups(chk: Check, ex: ProcessPoolExecutor, nmut: int, nsoup: 
                                                              for lo in range(0, nsoup, step)]))
     account(chk, cases)
     judge(chk, alphabet, cases, 'B:soup', mode)
+    ngen = max(200, nsoup // 2)
+    step = max(1, ngen // (common.NCPU * 2))
+    alphabet, cases = ld.merge_batches(ex.map(_worker_gen, [(lo, min(ngen, lo + step), chk.seed, want_ast) for lo in range(0, ngen, step)]))
+    account(chk, cases)
+    judge(chk, alphabet, cases, 'B:gen', mode)
+    chk.extra['generated_accept_fraction'] = round(sum(1 for c in cases if c['acc']) / max(1, len(cases)), 3)
 
 
 def main(chk: Check) -> None:
